@@ -454,7 +454,11 @@ func (f *Frame) loopTargets(li *loopInfo) ([]havocTarget, bool) {
 			}
 			switch u := et.Underlying().(type) {
 			case *types.Struct:
-				c.structHeaps(et, func(h string) { out = append(out, havocTarget{h, ""}) })
+				if key != "" {
+					out = append(out, c.objTargets(key, et)...)
+				} else {
+					c.structHeaps(et, func(h string) { out = append(out, havocTarget{h, ""}) })
+				}
 			case *types.Array:
 				h, _ := c.memHeap(u.Elem())
 				out = append(out, havocTarget{h, key})
@@ -485,7 +489,11 @@ func (f *Frame) loopTargets(li *loopInfo) ([]havocTarget, bool) {
 			}
 			switch u := et.Elem().Underlying().(type) {
 			case *types.Struct:
-				c.structHeaps(et.Elem(), func(h string) { out = append(out, havocTarget{h, ""}) })
+				if key != "" {
+					out = append(out, c.objTargets(key, et.Elem())...)
+				} else {
+					c.structHeaps(et.Elem(), func(h string) { out = append(out, havocTarget{h, ""}) })
+				}
 			case *types.Array:
 				h, _ := c.memHeap(u.Elem())
 				out = append(out, havocTarget{h, key})
@@ -693,6 +701,7 @@ func (f *Frame) checkInvariants(li *loopInfo, st *State, when string, pos token.
 	c := f.c
 	env := f.specEnv(st, f.entry)
 	env.at = li.header
+	env.goal = true
 	for i, ai := range li.autoInv {
 		g := ai.mk(func(v ssa.Value) string { return f.val(v).T })
 		f.oblige("invariant."+when, fmt.Sprintf("loop %d auto %d: %s", li.ordinal, i, ai.text), g, li.header.Instrs[0].Pos(), ai.text)
@@ -741,6 +750,7 @@ func (f *Frame) backEdge(li *loopInfo, from *ssa.BasicBlock, guard string, st *S
 	if li.spec != nil && li.spec.Decreases != nil && li.variant0 != "" {
 		env := f.specEnv(st, f.entry)
 		env.at = b
+		env.goal = true
 		t, err := env.intTerm(li.spec.Decreases.E)
 		if err == nil {
 			var g string
@@ -852,7 +862,7 @@ func (f *Frame) inferLoopInvariants(li *loopInfo) {
 		}
 		if up && cb.Op == token.LSS && outside(cb.Y) {
 			bound := cb.Y
-			if cb.X == ssa.Value(phi) {
+			if cb.X == ssa.Value(phi) && step.Cmp(big.NewInt(1)) == 0 {
 				// i < B: i <= max(B, init)
 				li.autoInv = append(li.autoInv, autoInv{text: fmt.Sprintf("%s <= max(bound, init)", phi.Comment), mk: func(get func(ssa.Value) string) string {
 					return or(cmp("<=", get(phiC), get(bound), ptyp), cmp("<=", get(phiC), get(initC), ptyp))
